@@ -119,6 +119,32 @@ GroupVerdicts(k) ==
                    IN IF cnt("?") = 0 /\ (IF weakFirst THEN cnt("c1") > cnt("c2") /\ cnt("c2") > cnt("c3")
                                                         ELSE cnt("c3") > cnt("c2") /\ cnt("c2") > cnt("c1"))
                       THEN {} ELSE {Fail("C15", "probability-ordering-frequencies", "")})
+          ELSE IF rel = "c15freqM" THEN
+             (* the same clause for any number of criteria: group.crits lists them by increasing importance (1 : 4 : ...) *)
+             (IF ~IsGroupLast(k) THEN {}
+              ELSE LET first(j) == LET evs == BiasEvents(Trace[j]) IN
+                                   IF Trace[j].status = 200 /\ Len(evs) >= 1 /\ Has(evs[1].report.props, "omittedCriteria")
+                                      /\ Len(evs[1].report.props.omittedCriteria) = 1
+                                   THEN evs[1].report.props.omittedCriteria[1].id ELSE "?"
+                       cs == o.case.group.crits
+                       cnt(c) == Cardinality({j \in f..k : first(j) = c})
+                       weakFirst == o.case.group.ordering = "weakestByProbability"
+                   IN IF cnt("?") = 0 /\ (\A i \in 1..(Len(cs) - 1) :
+                                             IF weakFirst THEN cnt(cs[i]) > cnt(cs[i + 1]) ELSE cnt(cs[i + 1]) > cnt(cs[i]))
+                      THEN {} ELSE {Fail("C15", "probability-ordering-frequencies", "")})
+          ELSE IF rel = "c15freq2M" THEN
+             (* two of four criteria omitted: given the likeliest first pick (group.first) the second pick is group.second   *)
+             (* (next in the ordering's direction, four times the weight of group.third) clearly more often than group.third *)
+             (IF ~IsGroupLast(k) THEN {}
+              ELSE LET om(j) == LET evs == BiasEvents(Trace[j]) IN
+                                IF Trace[j].status = 200 /\ Len(evs) >= 1 /\ Has(evs[1].report.props, "omittedCriteria")
+                                   /\ Len(evs[1].report.props.omittedCriteria) = 2
+                                THEN <<evs[1].report.props.omittedCriteria[1].id, evs[1].report.props.omittedCriteria[2].id>> ELSE <<"?", "?">>
+                       cnt(a, b) == Cardinality({j \in f..k : om(j) = <<a, b>>})
+                       g == o.case.group
+                       bad == Cardinality({j \in f..k : om(j)[1] = "?"})
+                   IN IF bad = 0 /\ cnt(g.first, g.second) > 2 * cnt(g.first, g.third)
+                      THEN {} ELSE {Fail("C15", "probability-ordering-second-pick", "")})
           ELSE IF rel = "c18freq" THEN
              (IF ~IsGroupLast(k) THEN {}
               ELSE LET ref(j) == LET rs == IF Trace[j].status = 200 /\ Len(BiasEvents(Trace[j])) >= 1
